@@ -196,6 +196,9 @@ func c14core(c *Ctx, f *ssa.Function) {
 
 // findExtract returns the sym of component i of a call result tuple on this path.
 func findExtract(p *px.Path, tuple *px.Sym, i int) *px.Sym {
+	if x := p.Extract(tuple, i); x != nil {
+		return x
+	}
 	for k := range p.Events {
 		e := &p.Events[k]
 		for _, s := range []*px.Sym{e.Val, e.Cond, e.Res} {
